@@ -429,6 +429,9 @@ Section Slots.
 End Slots.
 
 (* ------------------------------------------------------------------ the walk of a flit under IdTable routing *)
+Lemma consecutive_cons2' {T} (a b : T) l : consecutive (a :: b :: l) = (a, b) :: consecutive (b :: l).
+Proof. reflexivity. Qed.
+
 Section HwId.
   Variables (sp : oracle) (d : desc) (g : graph) (c : compiled) (ri : rinfo) (n : netlist) (t : cni) (id : Z).
   Variable nt : net.
@@ -470,7 +473,9 @@ Section HwId.
     nth_error (cr_in r) inp = Some (Some (prev, cr_name r)) -> ~ In prev p ->
     forall fuel rts sigs, (S k <= fuel)%nat ->
       let tr := walk fuel n nt (URt (cr_name r) inp) (HId id) rts sigs in
-      t_out tr = Delivered tname (HId id) /\ length (t_rts tr) = (length rts + S k)%nat.
+      t_out tr = Delivered tname (HId id) /\ length (t_rts tr) = (length rts + S k)%nat /\
+      t_sigs tr = rev sigs ++ map (flow nt) (consecutive (PathProofs.follow sp' (S k) (cr_name r))) /\
+      Forall (is_link_of g) (consecutive (PathProofs.follow sp' (S k) (cr_name r))).
   Proof.
     induction k as [|k IH]; intros r p inp prev Hr Hsp Hlen Hinp Hprev fuel rts sigs Hfuel;
       (destruct fuel as [|fuel]; [lia|]); cbv zeta; cbn [walk].
@@ -510,7 +515,11 @@ Section HwId.
       destruct rest as [|? ?]; [|cbn in Hlen; lia].
       assert (Hnt'' : nxt = tname) by (destruct Hpath as (_ & _ & Hl & _); cbn in Hl; exact Hl).
       destruct Hcase as [(y & Hy & -> & _)|(x2 & i & sl & Hx2 & -> & _ & _)].
-      + cbn [uref_name] in Hu. destruct fuel; cbn [walk t_out t_rts]; rewrite <- Hu, Hnt'', rev_length; cbn [length]; (split; [reflexivity|lia]).
+      + cbn [uref_name] in Hu.
+        assert (Hfo : PathProofs.follow sp' 1 (cr_name r) = [cr_name r; nxt]) by (cbn [PathProofs.follow]; rewrite Hsp; reflexivity).
+        rewrite Hfo. cbn [consecutive map]. fold s.
+        destruct fuel; cbn [walk t_out t_rts t_sigs]; rewrite <- Hu, Hnt'', rev_length; cbn [length rev];
+          (split; [reflexivity|split; [lia|split; [reflexivity|constructor; [rewrite Hnt'' in Hlink; exact Hlink|constructor]]]]).
       + exfalso. cbn [uref_name] in Hu. destruct (rt_of_instance x2 Hx2) as (r2 & Hr2 & Hq2).
         destruct (emitted_rt c ri n He Hnd r2 Hr2) as (x2' & Hx2' & _ & Hn2 & _). rewrite Hq2 in Hx2'. inversion Hx2'; subst x2'.
         apply (ni_rt_disjoint d g c Hb Hc t r2 Ht Hr2). fold tname. congruence.
@@ -535,10 +544,18 @@ Section HwId.
         assert (Hnotin : ~ In (cr_name r) p').
         { intros Hin'. destruct (path_suffix gedge tname p' nxt (cr_name r) (sp_path _ _ Hp') Hin') as (q & Hq & Hlq).
           pose proof (sp_min _ _ _ Hsp Hq). cbn [length] in *. lia. }
-        rewrite Hn2. replace nxt with (cr_name r2) in * by congruence.
+        rewrite Hn2. assert (Hs_eq : s = flow nt (cr_name r, cr_name r2)) by (unfold s; do 2 f_equal; congruence).
+        replace nxt with (cr_name r2) in * by congruence.
         destruct (IH r2 p' i (cr_name r) Hr2 Hp' ltac:(cbn [length] in *; lia) Eo Hnotin fuel (cr_name r :: rts) (s :: sigs) ltac:(lia))
-          as (I1 & I2).
-        split; [exact I1|]. rewrite I2. cbn [length]. lia.
+          as (I1 & I2 & I3 & I4).
+        split; [exact I1|]. split; [rewrite I2; cbn [length]; lia|].
+        change (PathProofs.follow sp' (S (S k)) (cr_name r)) with
+          (match sp' (cr_name r) with Some (_ :: nx :: _) => cr_name r :: PathProofs.follow sp' (S k) nx | _ => [cr_name r] end).
+        rewrite Hsp. destruct (follow_head sp' (S k) (cr_name r2)) as (tl & Etl). rewrite Etl in *.
+        split.
+        * rewrite I3. cbn [rev]. rewrite <- app_assoc. f_equal.
+          cbn [consecutive map app]. rewrite <- Hs_eq. reflexivity.
+        * rewrite consecutive_cons2'. constructor; [exact Hlink|exact I4].
   Qed.
 
   (* ---- injection at an interface ---- *)
@@ -576,10 +593,14 @@ Section HwId.
   Qed.
 
   (* C02 on the hardware model: a flit injected at interface s0 on net nt with the identity of t is delivered to t *)
-  Theorem hw_send s0 r0 p :
+  Theorem hw_send_full s0 r0 p :
     In s0 (c_nis c) -> cn_name s0 <> tname -> snd (attach nt s0) = r0 -> is_router c r0 -> sp' r0 = Some p ->
     let tr := send n nt (emit_ni d (ri_offset ri) s0) (HId id) in
-    t_out tr = Delivered tname (HId id) /\ S (length (t_rts tr)) = length p.
+    t_out tr = Delivered tname (HId id) /\ S (length (t_rts tr)) = length p /\
+    (* the signals crossed are those of the links along the oracle's next hops, the injection link first *)
+    t_sigs tr = map (flow nt) (consecutive (cn_name s0 :: PathProofs.follow sp' (length p - 1) r0)) /\
+    ~ In (cn_name s0) (PathProofs.follow sp' (length p - 1) r0) /\
+    Forall (is_link_of g) (consecutive (cn_name s0 :: PathProofs.follow sp' (length p - 1) r0)).
   Proof.
     intros Hs0 Hne Hr0 Hrt Hsp. cbv zeta.
     destruct (attach_link s0 Hs0) as (Hfst & Hlink & Hout).
@@ -635,8 +656,31 @@ Section HwId.
         { pose proof (path_len_bound (cr_name r) p ltac:(exists r; auto) Hsp) as Hb1.
           destruct (emit_inv _ _ _ He) as (_ & axi & rts & _ & Hrts & Hn). rewrite Hn. cbn [n_rts].
           rewrite (mapM_length _ _ _ Hrts). lia. }
-        destruct (hw_walk (length rest) r p i (cn_name s0) Hr Hsp Hlen Eo Hnotin (S (length (n_rts n))) [] [s] Hfuel) as (W1 & W2).
-        split; [exact W1|]. rewrite W2, Hlen. reflexivity.
+        destruct (hw_walk (length rest) r p i (cn_name s0) Hr Hsp Hlen Eo Hnotin (S (length (n_rts n))) [] [s] Hfuel) as (W1 & W2 & W3 & W4).
+        split; [exact W1|]. split; [rewrite W2, Hlen; reflexivity|].
+        rewrite Hlen. replace (S (S (length rest)) - 1)%nat with (S (length rest)) by lia.
+        split; [|split].
+        * rewrite W3. destruct (follow_head sp' (S (length rest)) (cr_name r)) as (tl & Etl).
+          rewrite Hrn in Etl |- *. rewrite Etl. cbn [rev app consecutive map]. reflexivity.
+        * (* the visited nodes are routers, and t *)
+          rewrite <- Hrn. intros Hin. destruct (follow_delivers gedge tname sp' sp_path sp_min B sp_bound sp_complete (S (length rest)) (cr_name r) p Hsp Hlen)
+            as (_ & Hlast & _ & _).
+          assert (Hne0 : PathProofs.follow sp' (S (length rest)) (cr_name r) <> []).
+          { destruct (follow_head sp' (S (length rest)) (cr_name r)) as (tl & Etl). rewrite Etl. discriminate. }
+          destruct (In_removelast_or_last _ (cn_name s0) (cr_name r) Hne0 Hin) as [Hc1|Hc2].
+          -- apply (follow_routers (length rest) (cr_name r) p ltac:(exists r; auto) Hsp Hlen) in Hc1.
+             apply in_map_iff in Hc1. destruct Hc1 as (r' & Hn' & Hr'). apply (ni_rt_disjoint d g c Hb Hc s0 r' Hs0 Hr'). congruence.
+          -- rewrite Hlast in Hc2. contradiction.
+        * destruct (follow_head sp' (S (length rest)) (cr_name r)) as (tl & Etl).
+          rewrite Hrn in Etl, W4. rewrite Etl in *. rewrite consecutive_cons2'. constructor; [exact Hlink|exact W4].
+  Qed.
+
+  Corollary hw_send s0 r0 p :
+    In s0 (c_nis c) -> cn_name s0 <> tname -> snd (attach nt s0) = r0 -> is_router c r0 -> sp' r0 = Some p ->
+    let tr := send n nt (emit_ni d (ri_offset ri) s0) (HId id) in
+    t_out tr = Delivered tname (HId id) /\ S (length (t_rts tr)) = length p.
+  Proof.
+    intros H1 H2 H3 H4 H5. destruct (hw_send_full s0 r0 p H1 H2 H3 H4 H5) as (A & B0 & _). split; assumption.
   Qed.
 End HwId.
 
@@ -726,7 +770,8 @@ Section HwSrc.
     nth_error (cr_in r) inp = Some (Some (prev, cr_name r)) ->
     forall fuel rts sigs, (length ps <= fuel)%nat ->
       let tr := walk fuel n nt (URt (cr_name r) inp) (HRoute (word_value ps)) rts sigs in
-      t_out tr = Delivered tname (HRoute 0) /\ length (t_rts tr) = (length rts + length ps)%nat.
+      t_out tr = Delivered tname (HRoute 0) /\ length (t_rts tr) = (length rts + length ps)%nat /\
+      t_sigs tr = rev sigs ++ map (flow nt) (consecutive path) /\ Forall (is_link_of g) (consecutive path).
   Proof.
     induction path as [|a tl IH]; intros ps r inp prev Hps Hhd Hr Hlen Hlast Hnodup Hinp fuel rts sigs Hfuel; [discriminate|].
     cbn in Hhd. inversion Hhd; subst a; clear Hhd.
@@ -770,7 +815,9 @@ Section HwSrc.
     - (* b is the last node: the destination interface *)
       cbn in Hlast. cbn in E. inversion E; subst a. cbn [word_value length].
       destruct Hcase as [(y & Hy & -> & _)|(x2 & i & sl & Hx2 & -> & _ & _)].
-      + cbn [uref_name] in Hu. destruct fuel; cbn [walk t_out t_rts]; rewrite <- Hu, Hlast, rev_length; cbn [length]; (split; [reflexivity|lia]).
+      + cbn [uref_name] in Hu. cbn [consecutive map]. fold s.
+        destruct fuel; cbn [walk t_out t_rts t_sigs]; rewrite <- Hu, Hlast, rev_length; cbn [length rev];
+          (split; [reflexivity|split; [lia|split; [reflexivity|constructor; [rewrite Hlast in Hlink; exact Hlink|constructor]]]]).
       + exfalso. cbn [uref_name] in Hu.
         destruct (emit_inv _ _ _ He) as (_ & axi & rts0 & _ & Hrts & Hn). rewrite Hn in Hx2. cbn [n_rts] in Hx2.
         destruct (mapM_In _ _ _ _ Hrts Hx2) as (r2 & Hr2 & Hq2).
@@ -801,8 +848,11 @@ Section HwSrc.
         assert (Hlast' : last (b :: b2 :: tl'') "" = tname) by (rewrite <- Hlast; cbn [last]; reflexivity).
         assert (E0' : ports_along c (b :: b2 :: tl'') = Ok a) by (cbn [ports_along]; rewrite Erb; exact E0).
         destruct (IH a rb i (cr_name r) E0' Hhd Hrb ltac:(cbn [length]; lia) Hlast' Hnodup' Eo fuel (cr_name r :: rts) (s :: sigs) ltac:(lia))
-          as (I1' & I2').
-        split; [exact I1'|]. rewrite I2'. cbn [length]. lia.
+          as (I1' & I2' & I3' & I4').
+        split; [exact I1'|]. split; [rewrite I2'; cbn [length]; lia|].
+        rewrite (consecutive_cons2' (cr_name r) b (b2 :: tl'')). split.
+        * rewrite I3'. cbn [rev map]. rewrite <- app_assoc. reflexivity.
+        * constructor; [exact Hlink|exact I4'].
   Qed.
 End HwSrc.
 
@@ -884,14 +934,17 @@ Section HwSrcSend.
 
   (* C03 on the hardware model: the word gen_route emits for (s0, t), injected at s0 on net nt, steers the flit
      to t, is consumed completely, and traverses exactly the routers of the oracle's path *)
-  Theorem hw_src_send s0 id ps p :
+  Theorem hw_src_send_full s0 id ps p :
     In s0 (c_nis c) -> gen_route sp c s0 t = Ok (id, Some ps) ->
     sp g (cn_name s0) tname = Some p -> shortest gedge tname p (cn_name s0) ->
     snd (attach nt s0) = hd "" (tl p) ->
     let tr := send n nt (emit_ni d (ri_offset ri) s0) (HRoute (word_value ps)) in
-    t_out tr = Delivered tname (HRoute 0) /\ length (t_rts tr) = length ps /\ (2 + length ps = length p)%nat.
+    t_out tr = Delivered tname (HRoute 0) /\ length (t_rts tr) = length ps /\ (2 + length ps = length p)%nat /\
+    (* the signals crossed are those of the links along the path, which is simple *)
+    t_sigs tr = map (flow nt) (consecutive p) /\ NoDup p /\ Forall (is_link_of g) (consecutive p).
   Proof.
     intros Hs0 Hgr Hsp Hshort Hatt. cbv zeta.
+    destruct (attach_link d g c ri nt Hnt Hb Hc s0 Hs0) as (Hafst & Halink & _).
     unfold gen_route in Hgr. inv_bind Hgr.
     destruct (str_eqb (cn_name s0) (cn_name t) || only_mgr s0 && only_mgr t || only_sbr s0 && only_sbr t) eqn:Ecase; [inversion Hgr|].
     apply orb_false_iff in Ecase. destruct Ecase as (Ecase & _). apply orb_false_iff in Ecase. destruct Ecase as (Hne & _).
@@ -914,7 +967,11 @@ Section HwSrcSend.
     - (* s0 is linked directly to t *)
       cbn in Hlast. cbn in Hports. inversion Hports; subst a0. cbn [word_value length].
       destruct Hcases as [(y & Hy & -> & Hny)|(r & i & Hr & -> & Hnr & _)].
-      + cbn [walk t_out t_rts]. rewrite Hny, Hlast. auto.
+      + cbn [walk t_out t_rts t_sigs rev app consecutive map]. rewrite Hny, Hlast.
+        assert (Hl0 : is_link_of g (cn_name s0, r0)) by (destruct (attach nt s0) as [a1 a2]; cbn [fst snd] in *; subst a1 a2; exact Halink).
+        rewrite Hlast in Hnodup, Hl0.
+        split; [reflexivity|]. split; [reflexivity|]. split; [reflexivity|]. split; [reflexivity|]. split; [exact Hnodup|].
+        constructor; [exact Hl0|constructor].
       + exfalso. apply (ni_rt_disjoint d g c Hb Hc t r Ht Hr). fold tname. congruence.
     - pose proof Hports as Hports0. cbn [ports_along] in Hports. destruct (find_crt c r0) as [r|] eqn:Er; [|discriminate].
       unfold find_crt in Er. apply find_some in Er. destruct Er as (Hr & Hnr). apply str_eqb_eq in Hnr.
@@ -932,8 +989,24 @@ Section HwSrcSend.
           rewrite (mapM_length _ _ _ Hrts). cbn [length] in *. lia. }
         destruct (hw_src_walk d g c ri n t nt Hnt Hb Hc He Ht Hwire (cr_name r :: b :: inner'') a0 r i (cn_name s0)
                     Hports0 eq_refl Hr ltac:(cbn [length]; lia) Hlast Hnodup Hin (S (length (n_rts n))) [] [flow nt (cn_name s0, cr_name r)] Hfuel)
-          as (W1 & W2).
-        rewrite <- Hnr. split; [exact W1|]. split; [rewrite W2; reflexivity|]. cbn [length] in *. lia.
+          as (W1 & W2 & W3 & W4).
+        assert (Hl0 : is_link_of g (cn_name s0, cr_name r)).
+        { rewrite Hnr. destruct (attach nt s0) as [a1 a2]; cbn [fst snd] in *; subst a1 a2; exact Halink. }
+        rewrite <- Hnr. split; [exact W1|]. split; [rewrite W2; reflexivity|]. split; [cbn [length] in *; lia|].
+        split; [|split].
+        * rewrite W3. rewrite (consecutive_cons2' (cn_name s0) (cr_name r) (b :: inner'')). reflexivity.
+        * exact Hnodup.
+        * rewrite (consecutive_cons2' (cn_name s0) (cr_name r) (b :: inner'')). constructor; [exact Hl0|exact W4].
+  Qed.
+
+  Corollary hw_src_send s0 id ps p :
+    In s0 (c_nis c) -> gen_route sp c s0 t = Ok (id, Some ps) ->
+    sp g (cn_name s0) tname = Some p -> shortest gedge tname p (cn_name s0) ->
+    snd (attach nt s0) = hd "" (tl p) ->
+    let tr := send n nt (emit_ni d (ri_offset ri) s0) (HRoute (word_value ps)) in
+    t_out tr = Delivered tname (HRoute 0) /\ length (t_rts tr) = length ps /\ (2 + length ps = length p)%nat.
+  Proof.
+    intros H1 H2 H3 H4 H5. destruct (hw_src_send_full s0 id ps p H1 H2 H3 H4 H5) as (A & B0 & C0 & _). auto.
   Qed.
 End HwSrcSend.
 
